@@ -138,6 +138,9 @@ pub struct Case {
     /// the real SDK `HttpClient` and the real axum router (hook H8)
     #[serde(default)]
     pub http_arm: bool,
+    /// file writes complete later, scheduled by seed (see `SimConfig::defer_writes`)
+    #[serde(default)]
+    pub defer_writes: bool,
 }
 
 impl Case {
@@ -153,6 +156,7 @@ impl Case {
         cfg.yield_prob = self.yield_prob;
         cfg.pipe_capacity = self.pipe_capacity;
         cfg.auto_tick_micros = self.auto_tick;
+        cfg.defer_writes = self.defer_writes;
         cfg
     }
 }
